@@ -500,7 +500,18 @@ let analyze (head : string) (fam : string) (lines : string array) : result =
         | None -> ())
      | "CB" :: t :: st :: _ ->
        r.cbs <- String.concat " " (List.tl w) :: r.cbs;
-       (match tok_of t with Some tk -> if st <> "status=0" then Hashtbl.remove m_out tk | None -> ())
+       (match tok_of t with
+        | Some tk ->
+          if st <> "status=0" then begin
+            Hashtbl.remove m_out tk;
+            (* a truncated answer must lead to a TCP transmission, never to the end of the query
+               (the switch to TCP does not consume a try); destruction / cancellation excepted *)
+            if Hashtbl.mem expect_tcp tk && st <> "status=16" && st <> "status=24" then begin
+              fail "tc" (Printf.sprintf "t%d: truncated UDP answer, the query ended with %s instead of being retried over TCP" tk st);
+              Hashtbl.remove expect_tcp tk
+            end
+          end
+        | None -> ())
      | "CLOSE" :: s :: _ ->
        (match sock_of s with Some k -> (match Hashtbl.find_opt socks k with Some sk -> sk.closed <- true | None -> ()) | None -> ())
      | "ENDSTATE" :: _ -> r.endstate <- l
